@@ -79,6 +79,13 @@ def disjoint : List (Nat × Nat) → Bool
   | [] => true
   | (s, e) :: rest => rest.all (fun q => e < q.1 || q.2 < s) && disjoint rest
 
+/-! ### supervision: what a supervisor that outlived the child saw of it -/
+
+/-- `postStartOk`: the child's `post_start` succeeded; `exit`: 1 = `Stopped`, 2 = `Failed`, 0 = not exited;
+`seen`: event kinds in the order handled (0 started, 1 terminated, 2 failed) -/
+def supOk (postStartOk : Bool) (exit : Nat) (seen : List Nat) : Bool :=
+  seen == (if postStartOk then [0] else []) ++ (if exit == 0 then [] else [exit])
+
 /-! ### text form -/
 
 def parseObs (t : String) : Option Obs :=
@@ -153,6 +160,21 @@ def judgeLine (ws : List String) : String :=
       else if x = "L" then verdict (callsOk false h cs) "call"
       else "bad-op"
     | _, _ => "bad-op"
+  | ["rejected", ids] =>
+    match natList ids with
+    | some l => verdict l.isEmpty "rejected-handled"
+    | none => "bad-op"
+  | ["reuse", n] =>
+    match n.toNat? with
+    | some k => verdict (k == 0) "name-not-free"
+    | none => "bad-op"
+  | ["sup", po, ex, seen] =>
+    let po? : Option Bool := if po = "1" then some true else if po = "0" then some false else none
+    let ex? : Option Nat := if ex = "S" then some 1 else if ex = "E" then some 2 else if ex = "N" then some 0 else none
+    match po?, ex?, natList seen with
+    | some po, some ex, some seen => verdict (supOk po ex seen) "supervision"
+    | _, _, _ => "bad-op"
+  | ["stuck", _] => "reject stuck"
   | "names" :: ivs =>
     match allSome (ivs.map parseIv) with
     | some l => verdict (disjoint l) "name-overlap"
